@@ -274,6 +274,15 @@ def run_and_compare(prop, scens, want_compare=True):
 
 
 def main(argv):
+    # every temporary file of this run (workers and twin interpreters inherit TMPDIR) lives in one directory
+    # that is removed when the run ends
+    import atexit
+    import shutil
+    import tempfile
+    run_tmp = tempfile.mkdtemp(prefix="jslrun")
+    os.environ["TMPDIR"] = run_tmp
+    tempfile.tempdir = run_tmp
+    atexit.register(shutil.rmtree, run_tmp, True)
     if len(argv) >= 2 and argv[0] == "--replay":
         return replay(argv[1])
     prop, tier = argv[0], (argv[1] if len(argv) > 1 else os.environ.get("VERIF_TIER", "quick"))
